@@ -13,3 +13,13 @@ add("C07", CH + "; rounding clause by AST-sliced kernels translated to QF_FP (z3
 add("C08", CH + "; rounding clause by AST-sliced kernels translated to QF_FP (z3 + cvc5)",
     "All-paths verdict (exact reals) that insertSpace equals the reference for every collision mode on interval, point and multi-tier textgrids (incl. an empty tier), that error mode raises iff an interval straddles, and that insertSpace followed by eraseRegion(shrink) restores the label-at-time function and span; plus a QF_FP verdict over all binary64 inputs in range that two adjacent intervals stay exactly adjacent after a split/stretch.",
     NOTE + "; KSMT translator subset (engine/ksmt.py)", "DESIGN.md 3/C08")
+
+add("C09", CH,
+    "All-paths verdict (exact reals, <=2 quick / <=3 thorough entries) that editTimestamps equals the reference shift (drop before 0, clip at 0, span grows/never shrinks, OutOfBounds/warning/silence exactly when an entry leaves the old span), appendTier and appendTextgrid equal the reference concatenation for equal/overlapping/disjoint name sets and both onlyMatchingNames settings (B shifted by textgrid A's end even when A's tier ends earlier), and +x;-x restores the entries.",
+    NOTE + "; print() in praatio.utilities.utils replaced by a recorder to observe warnings", "DESIGN.md 3/C09")
+add("C11", CH + "; collision test additionally on IEEE binary64",
+    "All-paths verdict (exact reals; <=2 quick / <=3 thorough existing entries; new entry anywhere incl. outside the span, touching, overlapping several, containing, contained) that insertEntry equals the list model for error/replace/merge x silence/warning incl. label join order, span growth, unchanged tier on CollisionError, and that deleteEntry removes exactly the given entry or raises; binary64 verdict that distinct point times never collide.",
+    NOTE, "DESIGN.md 3/C11")
+add("C05", CH + "; inductive step from an arbitrary well-formed state instead of operation histories",
+    "For each of the 16 operations x modes of the property: from ANY well-formed tier within the size bound (<=2 quick / <=3 thorough entries, second operand <=1/2) and ANY arguments in [-1024,1024], the result is well-formed and validate() agrees, or a praatio error is raised; constructors from arbitrary raw entries (all finite binary64 times, unsorted/overlapping/unstripped labels). Because well-formedness is both pre- and postcondition the confirmed steps compose to histories of any length within the per-step bound.",
+    NOTE + "; deleteEntry's ValueError for an absent entry is accepted as its documented behaviour", "DESIGN.md 3/C05")
